@@ -178,6 +178,7 @@ func genG11Shutdown(repo string, w *Out) error {
 		{"p.closeOnce.Do(func() { close(p.closeCh) })", "close-once"},
 		{"var err error", "var"},
 		{"for conn := range p.conns { if e := conn.Close(); e != nil { err = multierr.Append(err, e) } }", "range-conns-close"},
+		{"for conn := range p.conns { if e := conn.Close(); e != nil { err = multierr.Append(err, e) } if tconn, ok := conn.(*tls.Conn); ok { tconn.NetConn().Close() } }", "range-conns-close-and-socket-under-tls"},
 		{"return err", "return"},
 	})
 	if err != nil {
